@@ -8,7 +8,7 @@ use serde_json::{Value, json};
 
 pub static PROP: Prop = Prop {
     id: "C06",
-    rule: "(a) texts: repository corpus, its single-token mutation neighbourhood (delete / duplicate / swap / replace by each of a 40-token pool / indentation +-1,2; quick: seeded 12% sample, thorough: all), proptest token soups and valid-UTF-8 noise; each text is compiled, formatted under 3 option sets, every error is rendered, and if it compiles it is run under a 50 ms execution limit (sandboxed prelude without file/process functions) and the result or error is displayed. (b) core library: every callable found in the live prelude modules applied to all argument tuples of arity 0..2 (and a seeded sample of arity 3) from a boundary-value pool built fresh for every call; iterator results are drained for <= 64 steps and every result is displayed. Oracle: no panic payload, no abort, no hang. Non-trivial: (a) text not verbatim in the corpus that gets past the first token; (b) call that reaches the function body (error text is not 'Unexpected arguments'). Distinct by content hash.",
+    rule: "(a) texts: repository corpus, its single-token mutation neighbourhood (delete / duplicate / swap / replace by each of a 40-token pool / indentation +-1,2; quick: seeded 12% sample, thorough: all), proptest token soups and valid-UTF-8 noise; each text is compiled, formatted under 3 option sets, every error is rendered, and if it compiles it is run under a 50 ms execution limit (sandboxed prelude without file/process functions) and the result or error is displayed. (b) core library: every callable found in the live prelude modules applied to all argument tuples of arity 0..2 (and a seeded sample of arity 3) from a boundary-value pool built fresh for every call; iterator results are drained for <= 64 steps and every result is displayed. (d) string literals assembled from every escape form of the C15 table (valid, boundary, surrogate, out of range, malformed), alone and in ordered pairs, in both quote kinds, compiled directly and through koto.load inside try. Oracle: no panic payload, no abort, no hang. Non-trivial: (a) text not verbatim in the corpus that gets past the first token; (b) call that reaches the function body (error text is not 'Unexpected arguments'). Distinct by content hash.",
     assumptions: &[
         "allocation failure, capacity overflow and native stack overflow are resource exhaustion (excluded by the statement): counted, not reported",
         "loops that spin inside a native function (iterator.repeat without take, consumers of unbounded ranges) are excluded by construction from running",
@@ -127,7 +127,7 @@ fn eval_text(src: &str, in_corpus: bool, class: &'static str) -> Eval {
 // ---------------------------------------------------------------------------------------------
 // core library sweep
 
-pub const POOL: [&str; 52] = [
+pub const POOL: [&str; 54] = [
     "null",
     "true",
     "false",
@@ -177,6 +177,8 @@ pub const POOL: [&str; 52] = [
     "|a, b| a",
     "|| throw 'cb'",
     "|x| null",
+    "|x| true",
+    "|x| x != 'a'",
     "[1, 2, 3].iter()",
     "$ = (1, 2).iter()\n$.next()\n$.next()\n$.next()",
     "g$ = ||\n  yield 1\n  yield 2\n$ = g$()",
@@ -448,7 +450,32 @@ fn run_shard(ctx: &mut Ctx) {
             }
         }
     }
+    // (d) string literals assembled from every escape form (valid, boundary and invalid ones), alone and in
+    // pairs, both quote kinds, compiled directly and through koto.load inside try
+    let parts = crate::props::c15::escape_parts();
+    let mut eidx: u64 = 0;
+    for (i, a) in parts.iter().enumerate() {
+        for j in 0..=parts.len() {
+            for q in ['\'', '"'] {
+                eidx += 1;
+                if !ctx.mine(eidx) || ctx.too_many_failures() {
+                    continue;
+                }
+                let body = if j == parts.len() { a.0.to_string() } else { format!("{}{}", a.0, parts[j].0) };
+                let _ = i;
+                let src = format!("x = {q}{body}{q}\nprint x\nprint size x\n");
+                let case = json!({"kind": "text", "src": src, "may_exhaust": false});
+                ctx.run_case(&case, || eval_text(&src, false, "escape-literals"));
+                if q == '\'' && !body.contains('\n') && !body.contains('"') {
+                    let src = format!("r = try\n  koto.load r#\"x = '{body}'\"#\ncatch e\n  'E'\nprint r\n");
+                    let case = json!({"kind": "text", "src": src, "may_exhaust": false});
+                    ctx.run_case(&case, || eval_text(&src, false, "escape-literals-load"));
+                }
+            }
+        }
+    }
     if ctx.shard == 0 {
+        ctx.st.exhaustive_spaces.insert("escape forms, singles and ordered pairs, two quote kinds".into(), eidx);
         ctx.st.exhaustive_spaces.insert("operator-forms x operand pairs with an object".into(), ototal);
         ctx.st.exhaustive_spaces.insert("libcalls-arity<=2".into(), total2);
         ctx.note(format!("{} prelude functions x {} pool values (+{} risky first arguments where they cannot spin natively)", fns.len(), na, nr));
